@@ -359,12 +359,15 @@ def gen_run(seed: int, tier: str, sub: str) -> dict:
         # failure runs: programs that fail half-way (below a call, inside nested `with` blocks, in a
         # primitive) mixed with functions computing under the caller's or the default context
         cfg['failure_mix'] = True
-        for name in rotate(m['FAILING'], rot, 2):
+        below = m['FAIL_BELOW'][rot % len(m['FAIL_BELOW'])]
+        other = rotate(m['FAILING'], rot, 1)[0]
+        for name, n_ in ((below, 3), (other, 1)):
             cat = catalogue('main', name, m['SIG'][name])
-            for q in range(3):
-                call_pool.append(('main', name, cat[(rot + q) % CATALOGUE], r.choice(CTX_NAMES)))
-        for name in rotate(m['AMBIENT'], rot, 2):
+            for q in range(n_):
+                call_pool.append(('main', name, cat[(rot + 3 * q) % CATALOGUE], r.choice(CTX_NAMES)))
+        for name in rotate(m['BARE'], rot, 2):
             args = catalogue('main', name, m['SIG'][name])[r.randrange(4)]
+            call_pool.append(('main', name, args, None))
             call_pool.append(('main', name, args, None))
             call_pool.append(('main', name, args, r.choice(CTX_NAMES)))
     elif shape == 'focus':
